@@ -343,11 +343,14 @@ def _check_for_resource_template_ref(
             inputs = celtypes.MapType()
 
         if function_under_test.local_values:
-            locals = function_under_test.local_values.evaluate(
-                {
-                    "inputs": inputs,
-                }
-            )
+            try:
+                locals = function_under_test.local_values.evaluate(
+                    {
+                        "inputs": inputs,
+                    }
+                )
+            except celpy.CELEvalError:
+                continue
         else:
             locals = celtypes.MapType()
 
